@@ -212,6 +212,44 @@ Definition op_sxg_read_edit_verify (args : list sx) : sx :=
   | _ => bad_args
   end.
 
+(* sxg_history exch (actions...) : a sequence of calls on ONE in-memory exchange;
+   every observing action appends its result.  Actions: (integrity) (headers)
+   (write) (miencode rs) and the edits of apply_edit. *)
+Fixpoint run_history (fuel : nat) (e : exchange) (acts : list sx) (acc : list sx) : sx :=
+  match fuel with
+  | O => SL (rev acc)
+  | S f =>
+      match acts with
+      | [] => SL (rev acc)
+      | a :: t =>
+          match a with
+          | SL [tg] =>
+              if tag_is tg "integrity" then run_history f e t (sx_bytes_R (header_integrity sha256 e) :: acc)
+              else if tag_is tg "headers" then run_history f e t (sx_bytes_R (encode_exchange_headers e) :: acc)
+              else if tag_is tg "write" then run_history f e t (sx_bytes_R (write e) :: acc)
+              else bad_args
+          | SL [tg; SZ rs] =>
+              if tag_is tg "miencode" then
+                match mi_encode_payload sha256 e (Z.to_N rs) with
+                | Ok e' => run_history f e' t (SL [sym "ok"] :: acc)
+                | _ => run_history f e t (SL [sym "err"] :: acc)
+                end
+              else match apply_edit e a with Some e' => run_history f e' t acc | None => bad_args end
+          | _ => match apply_edit e a with Some e' => run_history f e' t acc | None => bad_args end
+          end
+      end
+  end.
+
+Definition op_sxg_history (args : list sx) : sx :=
+  match args with
+  | [e; SL acts] =>
+      match exchange_of_sx e with
+      | Some e' => run_history (S (List.length acts)) e' acts []
+      | None => bad_args
+      end
+  | _ => bad_args
+  end.
+
 Definition op_bigendian (args : list sx) : sx :=
   match args with
   | [SZ n; SZ size] => sx_bytes_R (be_encode n (Z.to_N size))
@@ -242,6 +280,7 @@ Definition dispatch_sxg (op : bytes) (args : list sx) : option sx :=
   else if bytes_eqb op (s2b "sxg_verify") then Some (op_sxg_verify args)
   else if bytes_eqb op (s2b "sxg_read_verify") then Some (op_sxg_read_verify args)
   else if bytes_eqb op (s2b "sxg_read_edit_verify") then Some (op_sxg_read_edit_verify args)
+  else if bytes_eqb op (s2b "sxg_history") then Some (op_sxg_history args)
   else if bytes_eqb op (s2b "bigendian") then Some (op_bigendian args)
   else if bytes_eqb op (s2b "url") then Some (op_url args)
   else None.
